@@ -220,6 +220,29 @@ def free_format(items):
                     'focus': [max(0, where - 4), where + 60],
                     'twin_of': item['name'], 'rerun': True,
                     'no_twin_ops': True})
+        # a comment of the data file that happens to contain the keyword
+        comment = b' /* 50 BATCHES OF 1000 PARTICLES, LAST BATCH DISCARDED */\n'
+        out.append({'name': 'freeformat-comment/' + item['base'],
+                    'path': None, 'base': 'ffc-' + item['base'],
+                    'data': item['data'][:where] + comment +
+                    item['data'][where:],
+                    'focus': [max(0, where - 4), where + len(comment) + 30],
+                    'twin_of': item['name'], 'rerun': True,
+                    'no_twin_ops': True})
+    pack = re.compile(rb'^([ \t]*)PACKET_LENGTH[ \t]+(\d+)[ \t]*\n', re.M)
+    for item in items:
+        if item.get('path') is None or 'PARA' not in item['base']:
+            continue
+        data, count = pack.subn(rb'\1PACKET_LENGTH\n\1\2\n', item['data'],
+                                count=1)
+        if count == 1:
+            where = pack.search(item['data']).start()
+            out.append({'name': 'freeformat-packet/' + item['base'],
+                        'path': None, 'base': 'ffp-' + item['base'],
+                        'data': data,
+                        'focus': [max(0, where - 4), where + 60],
+                        'twin_of': item['name'], 'rerun': True,
+                        'no_twin_ops': True})
     return out
 
 
